@@ -286,6 +286,100 @@ Proof.
     + destruct (F s c) eqn:E; auto. exfalso. apply (HB c). repeat split; auto. congruence.
     + symmetry. apply HJ; auto. congruence.
 Qed.
+
+(* ---- termination: with more fuel than nodes the propagation and the whole calculation return ---- *)
+Section Total.
+Variable dom : list nat.
+Hypothesis dom_nodup : NoDup dom.
+Hypothesis dom_closed : forall y c, In y dom -> In c (children y) -> In c dom.
+Definition tcnt (s : state) : nat := List.length (filter s dom).
+Lemma tcnt_bound s : tcnt s <= List.length dom.
+Proof. unfold tcnt. generalize dom. intros l. induction l as [|a l IH]; cbn; auto. destruct (s a); cbn; lia. Qed.
+Lemma tcnt_le s t : le s t -> tcnt s <= tcnt t.
+Proof.
+  intros H. unfold tcnt. generalize dom. intros l. induction l as [|a l IH]; cbn; auto.
+  destruct (s a) eqn:E; [rewrite (H a E); cbn; lia|]. destruct (t a); cbn; lia.
+Qed.
+Lemma tcnt_lower s c : In c dom -> s c = true -> tcnt (upd s c false) < tcnt s.
+Proof.
+  unfold tcnt. intros Hin Hs. revert Hin dom_nodup. generalize dom. intros l. induction l as [|a l IH]; intros Hin Hnd; [destruct Hin|].
+  inversion Hnd as [|? ? Ha Hl]; subst. cbn [filter]. destruct (Nat.eq_dec a c) as [->|n].
+  - rewrite upd_same, Hs. cbn [List.length].
+    assert (E : filter (upd s c false) l = filter s l).
+    { apply filter_ext_in. intros y Hy. apply upd_other. intros ->. auto. }
+    rewrite E. lia.
+  - destruct Hin as [->|Hin]; [congruence|]. rewrite (upd_other s c false a) by auto. specialize (IH Hin Hl).
+    destruct (s a); cbn [List.length]; lia.
+Qed.
+
+Theorem propagate_total : forall fuel s x, In x dom -> J s -> s x = false -> tcnt s < fuel ->
+  exists s', propagate fuel s x = Some s'.
+Proof.
+  induction fuel as [|f IH]; intros s x Hx HJ Hsx Hc; [lia|].
+  cbn [propagate]. destruct (const x) eqn:Ecx; [eauto|].
+  assert (LOOP : forall l s0, (forall c, In c l -> In c (children x)) -> J s0 -> s0 x = false -> tcnt s0 <= f ->
+    exists s1, fold_left (fun acc c => match acc with None => None | Some s =>
+        let new := match knd c with KAll => false | KAny => existsb (g s) (parents c) | KFixed => s c end in
+        if Bool.eqb new (s c) then Some s else propagate f (upd s c new) c end) l (Some s0) = Some s1).
+  { induction l as [|c l IHl]; intros s0 Hsub HJ0 Hx0 Hc0; cbn [fold_left]; [eauto|].
+    assert (Hcx : In c (children x)) by (apply Hsub; left; auto).
+    assert (Hcd : In c dom) by (eapply dom_closed; eauto).
+    assert (Hpx : In x (parents c)) by (apply mirror; auto).
+    set (new := match knd c with KAll => false | KAny => existsb (g s0) (parents c) | KFixed => s0 c end).
+    destruct (Bool.eqb new (s0 c)) eqn:Eq; [apply IHl; auto; intros; apply Hsub; right; auto|].
+    (* a change can only be a lowering *)
+    assert (Hlow : new = false /\ s0 c = true /\ (knd c = KFixed \/ F s0 c = false)).
+    { unfold new in *. destruct (knd c) eqn:Ek.
+      - rewrite Bool.eqb_reflx in Eq. discriminate.
+      - destruct (s0 c) eqn:Es.
+        + destruct (existsb (g s0) (parents c)) eqn:Ee; [discriminate|]. repeat split; auto. right.
+          unfold F. rewrite Ek. destruct (parents c); [destruct Hpx|exact Ee].
+        + pose proof (HJ0 c) as Hj. rewrite Ek in Hj. specialize (Hj ltac:(discriminate) Es). unfold F in Hj. rewrite Ek in Hj.
+          destruct (parents c) as [|p ps] eqn:Ep; [destruct Hpx|]. rewrite Hj in Eq. discriminate.
+      - destruct (s0 c) eqn:Es; [|discriminate]. repeat split; auto. right. unfold F. rewrite Ek.
+        destruct (forallb (g s0) (parents c)) eqn:Ef; auto. rewrite forallb_forall in Ef. specialize (Ef x Hpx).
+        unfold g in Ef. rewrite Hx0, Ecx in Ef. discriminate. }
+    destruct Hlow as (-> & Hs0c & HF).
+    assert (Hc1 : tcnt (upd s0 c false) < f) by (pose proof (tcnt_lower s0 c Hcd Hs0c); lia).
+    destruct (IH (upd s0 c false) c Hcd (lower_J s0 c HJ0 HF) (upd_same s0 c false) Hc1) as (s2 & E2).
+    rewrite E2. destruct (propagate_post _ _ _ _ E2 (lower_J s0 c HJ0 HF) (upd_same s0 c false)) as (L2 & J2 & _).
+    apply IHl; auto.
+    - intros; apply Hsub; right; auto.
+    - destruct (s2 x) eqn:E; auto. apply L2 in E. destruct (Nat.eq_dec x c) as [->|n]; [rewrite upd_same in E; discriminate|].
+      rewrite upd_other in E by auto. congruence.
+    - pose proof (tcnt_le _ _ L2). lia. }
+  apply LOOP; auto. lia.
+Qed.
+
+Lemma nodup_app_l {A} (l1 l2 : list A) : NoDup (l1 ++ l2) -> NoDup l1.
+Proof.
+  induction l1 as [|a l1 IH]; cbn; intros H; [constructor|]. inversion H; subst. constructor; auto.
+  intros A0. apply H2. apply in_or_app; auto.
+Qed.
+Theorem calculate_total fuel : forall todo done s,
+  NoDup (done ++ todo) -> Inv done todo s -> (forall d, In d todo -> In d dom) -> List.length dom < fuel ->
+  exists s', fold_left (calc_step fuel) todo (Some s) = Some s'.
+Proof.
+  induction todo as [|d todo IH]; intros done s Hnd HI Hin Hf; cbn [fold_left]; [eauto|].
+  assert (Hd_fresh : ~ In d done).
+  { intros A. apply NoDup_remove_2 in Hnd. apply Hnd. apply in_or_app; auto. }
+  assert (STEP : exists s1, calc_step fuel (Some s) d = Some s1).
+  { cbn [calc_step]. destruct (knd d) eqn:Ek; eauto. destruct (fixedval d) eqn:Ev; eauto.
+    destruct HI as (HJ & _). apply propagate_total.
+    - apply Hin. left; auto.
+    - apply lower_J; auto.
+    - apply upd_same.
+    - pose proof (tcnt_bound (upd s d false)). lia. }
+  destruct STEP as (s1 & E1). rewrite E1.
+  assert (HI1 : Inv (done ++ [d]) todo s1).
+  { assert (Hnd1 : NoDup (done ++ [d])).
+    { replace (done ++ d :: todo) with ((done ++ [d]) ++ todo) in Hnd by (rewrite <- app_assoc; auto). apply nodup_app_l in Hnd. auto. }
+    apply (calc_inv fuel [d] done s s1); auto. }
+  apply (IH (done ++ [d])); auto.
+  - rewrite <- app_assoc. exact Hnd.
+  - intros; apply Hin; right; auto.
+Qed.
+End Total.
 End Generic.
 
 (* ------------------------------------------------------------------------------------------------
